@@ -1,5 +1,778 @@
-//! C17 — not implemented yet.
+//! C17 — multilinear extensions and sparse multivariate polynomials evaluate as defined.
+//!
+//! Oracle = the definition: f(x) = Σ_b T[b]·Π_i (b_i x_i + (1−b_i)(1−x_i)), index bit i ↔ variable i
+//! (little endian, as documented on `MultilinearExtension`), computed by a direct product per index.
+use ark_ff::{PrimeField, Zero};
+use ark_poly::polynomial::multivariate::{SparsePolynomial as MvPoly, SparseTerm, Term};
+use ark_poly::{
+    DenseMVPolynomial, DenseMultilinearExtension as Dense, MultilinearExtension, Polynomial,
+    SparseMultilinearExtension as Sparse,
+};
+use std::collections::BTreeMap;
+use std::ops::{Add, AddAssign, Index, Neg, Sub, SubAssign};
+use vh_core::engine::{no_panic, Obs, PropSpec, Rel, Tape, Tier, R};
+use vh_core::{ensure, ensure_eq};
+
+mod mv;
+
+// ---------------------------------------------------------------------------------------
+// generators
+// ---------------------------------------------------------------------------------------
+
+pub fn splitmix(mut x: u64) -> u64 {
+    x = x.wrapping_add(0x9e3779b97f4a7c15);
+    let mut z = x;
+    z = (z ^ (z >> 30)).wrapping_mul(0xbf58476d1ce4e5b9);
+    z = (z ^ (z >> 27)).wrapping_mul(0x94d049bb133111eb);
+    z ^ (z >> 31)
+}
+
+fn words<F: PrimeField>() -> usize {
+    (F::MODULUS_BIT_SIZE as usize + 64 + 63) / 64
+}
+
+pub fn uniform<F: PrimeField>(t: &mut Tape<'_>) -> F {
+    let b = t.bytes(8 * words::<F>());
+    F::from_le_bytes_mod_order(&b)
+}
+
+/// edge-biased field element; word 0 ⇒ 0
+pub fn fe<F: PrimeField>(t: &mut Tape<'_>) -> F {
+    match t.weighted(&[3, 2, 2, 3, 6]) {
+        0 => F::zero(),
+        1 => F::one(),
+        2 => -F::one(),
+        3 => F::from(t.below(8) + 2),
+        _ => uniform(t),
+    }
+}
+
+/// deterministic expansion of a tape word into table entry number `i`
+fn expand<F: PrimeField>(seed: u64, i: u64, small: bool) -> F {
+    let w = splitmix(seed ^ i.wrapping_mul(0x9e3779b97f4a7c15));
+    if small {
+        F::from(w % 4)
+    } else {
+        let mut bytes = Vec::with_capacity(8 * words::<F>());
+        let mut s = w;
+        for _ in 0..words::<F>() {
+            bytes.extend_from_slice(&s.to_le_bytes());
+            s = splitmix(s);
+        }
+        F::from_le_bytes_mod_order(&bytes)
+    }
+}
+
+pub fn gen_n(t: &mut Tape<'_>, nmax: usize) -> usize {
+    match t.weighted(&[2, 2, 3, 6, 3, 2]) {
+        0 => 0,
+        1 => 1,
+        2 => 2,
+        3 => t.range(3, 5) as usize,
+        4 => t.range(6, 8.min(nmax as u64)) as usize,
+        _ => t.range(9.min(nmax as u64), nmax as u64) as usize,
+    }
+}
+
+/// a table of 2^n values: zero, sparse, ~sqrt-sparse or dense content
+fn gen_table<F: PrimeField>(t: &mut Tape<'_>, n: usize) -> (Vec<F>, &'static str) {
+    let size = 1usize << n;
+    let mut v = vec![F::zero(); size];
+    match t.weighted(&[2, 4, 2, 4, 2, 4]) {
+        0 => (v, "tab-zero"),
+        1 => {
+            let k = t.range(1, 6.min(size as u64));
+            for _ in 0..k {
+                let i = t.idx(size);
+                v[i] = fe(t);
+            }
+            (v, "tab-sparse")
+        },
+        2 => {
+            let seed = t.u64();
+            let k = 1u64 << (n / 2);
+            for j in 0..k {
+                let i = (splitmix(seed ^ j) % size as u64) as usize;
+                v[i] = expand(seed, j + size as u64, false);
+            }
+            (v, "tab-sqrt")
+        },
+        3 if size <= 16 => {
+            for x in v.iter_mut() {
+                *x = fe(t);
+            }
+            (v, "tab-dense-tape")
+        },
+        4 => {
+            let seed = t.u64();
+            for (i, x) in v.iter_mut().enumerate() {
+                *x = expand(seed, i as u64, true);
+            }
+            (v, "tab-dense-small")
+        },
+        _ => {
+            let seed = t.u64();
+            for (i, x) in v.iter_mut().enumerate() {
+                *x = expand(seed, i as u64, false);
+            }
+            (v, "tab-dense-uniform")
+        },
+    }
+}
+
+/// a point of length n: Boolean, uniform or mixed
+fn gen_point<F: PrimeField>(t: &mut Tape<'_>, n: usize) -> (Vec<F>, &'static str) {
+    match t.weighted(&[2, 4, 4]) {
+        0 => ((0..n).map(|_| if t.bool() { F::one() } else { F::zero() }).collect(), "pt-boolean"),
+        1 => ((0..n).map(|_| uniform(t)).collect(), "pt-uniform"),
+        _ => ((0..n).map(|_| fe(t)).collect(), "pt-mixed"),
+    }
+}
+
+fn is_boolean<F: PrimeField>(p: &[F]) -> bool {
+    p.iter().all(|x| x.is_zero() || x.is_one())
+}
+
+fn nnz<F: PrimeField>(v: &[F]) -> usize {
+    v.iter().filter(|x| !x.is_zero()).count()
+}
+
+/// decimal rendering, abbreviated in the middle when long (evidence samples only; failure messages use it too, the
+/// replay file reproduces the exact values)
+pub fn fs<F: PrimeField>(x: &F) -> String {
+    let d = x.to_string();
+    if d.len() > 14 {
+        format!("{}…{}({}d)", &d[..6], &d[d.len() - 4..], d.len())
+    } else {
+        d
+    }
+}
+
+pub fn fmt_vec<F: PrimeField>(v: &[F], max: usize) -> String {
+    let mut s: Vec<String> = v.iter().take(max).map(|x| fs(x)).collect();
+    if v.len() > max {
+        s.push(format!("…(+{})", v.len() - max));
+    }
+    format!("[{}]", s.join(","))
+}
+
+// ---------------------------------------------------------------------------------------
+// oracle: the definition
+// ---------------------------------------------------------------------------------------
+
+/// w[b] = Π_i (b_i x_i + (1-b_i)(1-x_i)) for every b in {0,1}^d, bit i of b ↔ x_i
+fn eq_weights<F: PrimeField>(x: &[F]) -> Vec<F> {
+    let d = x.len();
+    (0..1usize << d)
+        .map(|b| {
+            let mut p = F::one();
+            for (i, xi) in x.iter().enumerate() {
+                p *= if (b >> i) & 1 == 1 { *xi } else { F::one() - *xi };
+            }
+            p
+        })
+        .collect()
+}
+
+fn mle_eval<F: PrimeField>(tab: &[F], x: &[F]) -> F {
+    assert_eq!(tab.len(), 1 << x.len());
+    let w = eq_weights(x);
+    let mut s = F::zero();
+    for (a, b) in tab.iter().zip(w.iter()) {
+        if !a.is_zero() {
+            s += *a * *b;
+        }
+    }
+    s
+}
+
+/// table of the function c ↦ f(r_0..r_{d-1}, c_0, .., c_{n-d-1})
+fn restrict<F: PrimeField>(tab: &[F], n: usize, r: &[F]) -> Vec<F> {
+    let d = r.len();
+    let w = eq_weights(r);
+    (0..1usize << (n - d))
+        .map(|c| {
+            let mut s = F::zero();
+            for (a, wa) in w.iter().enumerate() {
+                let v = tab[a + (c << d)];
+                if !v.is_zero() {
+                    s += v * *wa;
+                }
+            }
+            s
+        })
+        .collect()
+}
+
+/// exchange bit a+j with bit b+j for j < k (one bit at a time)
+fn swap_index(i: usize, a: usize, b: usize, k: usize) -> usize {
+    let mut r = i;
+    for j in 0..k {
+        let (p, q) = (a + j, b + j);
+        let bp = (r >> p) & 1;
+        let bq = (r >> q) & 1;
+        r = (r & !(1 << p) & !(1 << q)) | (bq << p) | (bp << q);
+    }
+    r
+}
+
+// ---------------------------------------------------------------------------------------
+// the two representations behind one interface
+// ---------------------------------------------------------------------------------------
+
+trait Rep<F: PrimeField>:
+    MultilinearExtension<F>
+    + Index<usize, Output = F>
+    + Add<Output = Self>
+    + Sub<Output = Self>
+    + Neg<Output = Self>
+    + AddAssign<Self>
+    + SubAssign<Self>
+{
+    const KIND: &'static str;
+    fn build(n: usize, tab: &[F], t: &mut Tape<'_>, o: &mut Obs) -> Self;
+    /// structural sanity of the stored representation
+    fn wellformed(&self) -> bool;
+    /// the whole table, read through `Index`
+    fn table(&self) -> Vec<F> {
+        (0..1usize << self.num_vars()).map(|i| self[i]).collect()
+    }
+}
+
+impl<F: PrimeField> Rep<F> for Dense<F> {
+    const KIND: &'static str = "dense";
+    fn build(n: usize, tab: &[F], t: &mut Tape<'_>, _o: &mut Obs) -> Self {
+        if t.bool() {
+            Dense::from_evaluations_slice(n, tab)
+        } else {
+            Dense::from_evaluations_vec(n, tab.to_vec())
+        }
+    }
+    fn wellformed(&self) -> bool {
+        self.evaluations.len() == 1 << self.num_vars
+    }
+}
+
+impl<F: PrimeField> Rep<F> for Sparse<F> {
+    const KIND: &'static str = "sparse";
+    /// distinct indices; every non-zero entry, plus a few explicit zero entries; in a tape-chosen order
+    fn build(n: usize, tab: &[F], t: &mut Tape<'_>, o: &mut Obs) -> Self {
+        let mut ent: Vec<(usize, F)> = tab.iter().enumerate().filter(|(_, v)| !v.is_zero()).map(|(i, v)| (i, *v)).collect();
+        if t.chance(1, 3) {
+            let mut extra: Vec<usize> = Vec::new();
+            for _ in 0..t.range(1, 3) {
+                let i = t.idx(tab.len());
+                if tab[i].is_zero() && !extra.contains(&i) {
+                    extra.push(i);
+                    ent.push((i, F::zero()));
+                }
+            }
+            o.class_if(!extra.is_empty(), "sparse-explicit-zero-entry");
+        }
+        match t.below(3) {
+            0 => {},
+            1 => ent.reverse(),
+            _ => {
+                let len = ent.len();
+                let k = t.idx(len.max(1)).min(len);
+                ent.rotate_left(k);
+            },
+        }
+        o.class_if(ent.is_empty(), "sparse-no-entries");
+        Sparse::from_evaluations(n, &ent)
+    }
+    fn wellformed(&self) -> bool {
+        self.evaluations.keys().all(|k| *k < (1usize << self.num_vars))
+    }
+}
+
+/// `res` must be the extension of `want` (n variables); the `Zero` representation (0 variables, value 0) is
+/// accepted for an all-zero `want` of any arity
+fn check_table<F: PrimeField, M: Rep<F>>(res: &M, n: usize, want: &[F], sig: &str) -> R {
+    ensure!(res.wellformed(), format!("{}.malformed", sig), "{}: malformed result {:?}", sig, res);
+    if res.num_vars() == n {
+        let got = res.table();
+        if got != want {
+            let i = (0..want.len()).find(|i| got[*i] != want[*i]).unwrap();
+            return vh_core::fail(sig, format!("{}: table differs at index {}: got {} expected {} (n={})", sig, i, got[i], want[i], n));
+        }
+        Ok(())
+    } else {
+        ensure!(
+            res.is_zero() && want.iter().all(|x| x.is_zero()),
+            format!("{}.arity", sig),
+            "{}: result has {} variables, expected {} (result {:?}, expected table {})",
+            sig,
+            res.num_vars(),
+            n,
+            res,
+            fmt_vec(want, 8)
+        );
+        Ok(())
+    }
+}
+
+fn describe<F: PrimeField>(kind: &str, n: usize, tab: &[F], tc: &str) -> String {
+    format!("{} n={} {} nnz={} T={}", kind, n, tc, nnz(tab), fmt_vec(tab, 6))
+}
+
+// ---------------------------------------------------------------------------------------
+// relations generic over the representation
+// ---------------------------------------------------------------------------------------
+
+fn eval_rel<F: PrimeField, M: Rep<F>>(t: &mut Tape<'_>, o: &mut Obs, nmax: usize) -> R {
+    let n = gen_n(t, nmax);
+    let (tab, tc) = gen_table::<F>(t, n);
+    let m = M::build(n, &tab, t, o);
+    let pts: Vec<(Vec<F>, &'static str)> = (0..3).map(|_| gen_point::<F>(t, n)).collect();
+    o.show(|| format!("{} points {:?}", describe(M::KIND, n, &tab, tc), pts.iter().map(|p| fmt_vec(&p.0, 4)).collect::<Vec<_>>()));
+    o.class(tc);
+    o.class_if(n == 0, "n=0");
+    for p in &pts {
+        o.class(p.1);
+    }
+    o.nt(n >= 2 && nnz(&tab) >= 2 && pts.iter().any(|p| !is_boolean(&p.0)));
+    o.evals(6);
+    ensure!(m.wellformed(), "build.malformed", "{:?}", m);
+    ensure_eq!(m.num_vars(), n, "num_vars");
+    // whole table through Index and through to_evaluations
+    let got = m.table();
+    ensure!(got == tab, "index", "Index disagrees with the table: got {} expected {}", fmt_vec(&got, 8), fmt_vec(&tab, 8));
+    let ev = m.to_evaluations();
+    ensure!(ev == tab, "to_evaluations", "to_evaluations: got {} expected {}", fmt_vec(&ev, 8), fmt_vec(&tab, 8));
+    for (p, _) in &pts {
+        let want = mle_eval(&tab, p);
+        let got = no_panic("evaluate", || m.evaluate(p))?;
+        ensure!(got == want, "evaluate", "evaluate({}) = {} expected {}", fmt_vec(p, 6), got, want);
+        if is_boolean(p) {
+            let idx: usize = p.iter().enumerate().map(|(i, x)| if x.is_one() { 1usize << i } else { 0 }).sum();
+            ensure!(got == tab[idx], "evaluate.boolean", "value at Boolean point {} is {} but T[{}] = {}", fmt_vec(p, 6), got, idx, tab[idx]);
+        }
+    }
+    Ok(())
+}
+
+fn fix_rel<F: PrimeField, M: Rep<F>>(t: &mut Tape<'_>, o: &mut Obs, nmax: usize) -> R {
+    let n = gen_n(t, nmax);
+    let (tab, tc) = gen_table::<F>(t, n);
+    let m = M::build(n, &tab, t, o);
+    let (pt, pc) = gen_point::<F>(t, n);
+    let lens: Vec<usize> = if n <= 8 {
+        (0..=n).collect()
+    } else {
+        let mut l = vec![0, 1, t.range(2, n as u64 - 2) as usize, n - 1, n];
+        l.dedup();
+        l
+    };
+    let split = (t.idx(n + 1), t.idx(n + 1));
+    o.show(|| format!("{} fix_variables(prefixes of {}) lengths {:?}", describe(M::KIND, n, &tab, tc), fmt_vec(&pt, 4), lens));
+    o.class(tc);
+    o.class(pc);
+    o.class_if(n == 0, "n=0");
+    o.class("fix-full-length");
+    o.class("fix-empty");
+    o.nt(n >= 2 && nnz(&tab) >= 2 && !is_boolean(&pt));
+    o.evals(lens.len() as u64);
+    for d in lens {
+        let r = no_panic("fix_variables", || m.fix_variables(&pt[..d]))?;
+        ensure!(r.wellformed(), "fix_variables.malformed", "{:?}", r);
+        ensure_eq!(r.num_vars(), n - d, "fix_variables.num_vars", "partial point of length {}", d);
+        let want = restrict(&tab, n, &pt[..d]);
+        let got = r.table();
+        if got != want {
+            let i = (0..want.len()).find(|i| got[*i] != want[*i]).unwrap();
+            return vh_core::fail(
+                "fix_variables",
+                format!("fix_variables with {} of {} variables bound to {}: entry {} is {} expected {}", d, n, fmt_vec(&pt[..d], 6), i, got[i], want[i]),
+            );
+        }
+        let ev = r.to_evaluations();
+        ensure!(ev == want, "fix_variables.to_evaluations", "to_evaluations of the restricted polynomial: got {} expected {}", fmt_vec(&ev, 8), fmt_vec(&want, 8));
+    }
+    // binding in two steps = binding at once
+    let (d1, d2) = (split.0.min(split.1), split.0.max(split.1));
+    let two = m.fix_variables(&pt[..d1]).fix_variables(&pt[d1..d2]);
+    let want = restrict(&tab, n, &pt[..d2]);
+    ensure_eq!(two.num_vars(), n - d2, "fix_variables.chained.num_vars");
+    ensure!(two.table() == want, "fix_variables.chained", "fix({}) then fix({}) differs from the restriction to the first {} variables", d1, d2 - d1, d2);
+    Ok(())
+}
+
+/// a valid relabel window: k = 0, a = b, or two disjoint windows inside 0..n (including b + k = n)
+fn gen_window(t: &mut Tape<'_>, n: usize) -> (usize, usize, usize, &'static str) {
+    let cls = if n >= 2 { t.weighted(&[1, 1, 6]) } else { t.weighted(&[1, 1]) };
+    match cls {
+        0 => (t.idx(n + 1), t.idx(n + 1), 0, "win-k=0"),
+        1 => {
+            let k = t.idx(n + 1);
+            let a = t.idx(n - k + 1);
+            (a, a, k, "win-a=b")
+        },
+        _ => {
+            let k = t.range(1, (n / 2) as u64) as usize;
+            let lo = t.idx(n - 2 * k + 1);
+            let at_end = t.chance(1, 5);
+            let hi = if at_end { n - k } else { lo + k + t.idx(n - k - (lo + k) + 1) };
+            let cls = if hi + k == n { "win-ends-at-n" } else { "win-inside" };
+            if t.bool() {
+                (hi, lo, k, cls)
+            } else {
+                (lo, hi, k, cls)
+            }
+        },
+    }
+}
+
+fn relabel_rel<F: PrimeField, M: Rep<F>>(t: &mut Tape<'_>, o: &mut Obs, nmax: usize) -> R {
+    let n = gen_n(t, nmax);
+    let (tab, tc) = gen_table::<F>(t, n);
+    let m = M::build(n, &tab, t, o);
+    let (a, b, k, wc) = gen_window(t, n);
+    let (pt, pc) = gen_point::<F>(t, n);
+    o.show(|| format!("{} relabel({}, {}, {}) [{}] point {}", describe(M::KIND, n, &tab, tc), a, b, k, wc, fmt_vec(&pt, 4)));
+    o.class(tc);
+    o.class(wc);
+    o.class(pc);
+    o.class_if(a > b, "win-a>b");
+    o.class_if(k >= 2, "win-k>=2");
+    o.nt(n >= 2 && nnz(&tab) >= 2 && k >= 1 && a != b);
+    o.evals(2);
+    let want: Vec<F> = (0..tab.len()).map(|i| tab[swap_index(i, a, b, k)]).collect();
+    let r = no_panic("relabel", || m.relabel(a, b, k))?;
+    ensure!(r.wellformed(), "relabel.malformed", "{:?}", r);
+    ensure_eq!(r.num_vars(), n, "relabel.num_vars");
+    let got = r.table();
+    if got != want {
+        let i = (0..want.len()).find(|i| got[*i] != want[*i]).unwrap();
+        return vh_core::fail("relabel", format!("relabel({},{},{}) on {} variables: entry {} is {} expected {} (= T[{}])", a, b, k, n, i, got[i], want[i], swap_index(i, a, b, k)));
+    }
+    // Q(x) = P(x with the two windows exchanged)
+    let mut y = pt.clone();
+    for j in 0..k {
+        y.swap(a + j, b + j);
+    }
+    let q = r.evaluate(&pt);
+    let p = mle_eval(&tab, &y);
+    ensure!(q == p, "relabel.evaluate", "relabel({},{},{}): Q({}) = {} but P(swapped point) = {}", a, b, k, fmt_vec(&pt, 6), q, p);
+    // relabelling twice is the identity
+    let back = r.relabel(a, b, k);
+    ensure!(back.table() == tab, "relabel.involution", "relabel({},{},{}) twice is not the identity", a, b, k);
+    Ok(())
+}
+
+struct OpsCase<F: PrimeField> {
+    n: usize,
+    ta: Vec<F>,
+    tb: Vec<F>,
+    za: bool,
+    zb: bool,
+    f: F,
+    pt: Vec<F>,
+}
+
+fn gen_ops<F: PrimeField>(t: &mut Tape<'_>, o: &mut Obs, nmax: usize, kind: &str) -> OpsCase<F> {
+    let mut n = gen_n(t, nmax);
+    let za = t.chance(1, 6);
+    let zb = t.chance(1, 6);
+    if za && zb {
+        n = 0;
+    }
+    let (mut ta, ca) = gen_table::<F>(t, n);
+    let (mut tb, cb) = gen_table::<F>(t, n);
+    if za {
+        ta = vec![F::zero(); 1 << n];
+    }
+    if zb {
+        tb = vec![F::zero(); 1 << n];
+    }
+    // correlated operands: b = -a on half of the entries or everywhere, so that sums cancel
+    if !za && !zb {
+        match t.weighted(&[8, 2, 1]) {
+            0 => {},
+            1 => {
+                for i in 0..tb.len() {
+                    if splitmix(i as u64) & 1 == 0 {
+                        tb[i] = -ta[i];
+                    }
+                }
+                o.class("ops-cancelling-entries");
+            },
+            _ => {
+                for i in 0..tb.len() {
+                    tb[i] = -ta[i];
+                }
+                o.class("ops-rhs-is-negated-lhs");
+            },
+        }
+    }
+    let f = fe::<F>(t);
+    let (pt, pc) = gen_point::<F>(t, n);
+    o.show(|| {
+        format!(
+            "{} n={} A={} [{}{}] B={} [{}{}] f={} point {}",
+            kind,
+            n,
+            fmt_vec(&ta, 4),
+            ca,
+            if za { ", Zero::zero()" } else { "" },
+            fmt_vec(&tb, 4),
+            cb,
+            if zb { ", Zero::zero()" } else { "" },
+            f,
+            fmt_vec(&pt, 4)
+        )
+    });
+    o.class(ca);
+    o.class(pc);
+    o.class_if(za, "ops-lhs-Zero-repr");
+    o.class_if(zb, "ops-rhs-Zero-repr");
+    o.class_if(f.is_zero(), "ops-scalar-0");
+    o.class_if(f.is_one(), "ops-scalar-1");
+    o.nt(n >= 2 && nnz(&ta) >= 2 && nnz(&tb) >= 2 && !is_boolean(&pt));
+    OpsCase { n, ta, tb, za, zb, f, pt }
+}
+
+fn check_res<F: PrimeField, M: Rep<F>>(res: &M, c: &OpsCase<F>, want: &[F], sig: &str) -> R {
+    check_table(res, c.n, want, sig)?;
+    if res.num_vars() == c.n {
+        let got = res.evaluate(&c.pt);
+        let w = mle_eval(want, &c.pt);
+        ensure!(got == w, format!("{}.evaluate", sig), "{}: result evaluates to {} at {}, expected {}", sig, got, fmt_vec(&c.pt, 6), w);
+    }
+    Ok(())
+}
+
+fn ops_rel<F: PrimeField, M: Rep<F>>(t: &mut Tape<'_>, o: &mut Obs, nmax: usize) -> R
+where
+    for<'a> &'a M: Add<&'a M, Output = M> + Sub<&'a M, Output = M>,
+{
+    let c = gen_ops::<F>(t, o, nmax, M::KIND);
+    let a = if c.za { M::zero() } else { M::build(c.n, &c.ta, t, o) };
+    let b = if c.zb { M::zero() } else { M::build(c.n, &c.tb, t, o) };
+    o.evals(12);
+    let sum: Vec<F> = c.ta.iter().zip(&c.tb).map(|(x, y)| *x + *y).collect();
+    let diff: Vec<F> = c.ta.iter().zip(&c.tb).map(|(x, y)| *x - *y).collect();
+    let nega: Vec<F> = c.ta.iter().map(|x| -*x).collect();
+    let fma: Vec<F> = c.ta.iter().zip(&c.tb).map(|(x, y)| *x + c.f * *y).collect();
+    o.class_if(nnz(&sum) == 0 && nnz(&c.ta) > 0, "ops-sum-cancels-to-zero");
+
+    check_res(&no_panic("add", || a.clone() + b.clone())?, &c, &sum, "add")?;
+    check_res(&no_panic("add.ref", || &a + &b)?, &c, &sum, "add.ref")?;
+    let mut x = a.clone();
+    no_panic("add_assign", || x += b.clone())?;
+    check_res(&x, &c, &sum, "add_assign")?;
+    let mut x = a.clone();
+    no_panic("add_assign.ref", || x += &b)?;
+    check_res(&x, &c, &sum, "add_assign.ref")?;
+    let mut x = a.clone();
+    no_panic("add_assign.scaled", || x += (c.f, &b))?;
+    check_res(&x, &c, &fma, "add_assign.scaled")?;
+    check_res(&no_panic("neg", || -a.clone())?, &c, &nega, "neg")?;
+    check_res(&no_panic("sub", || a.clone() - b.clone())?, &c, &diff, "sub")?;
+    check_res(&no_panic("sub.ref", || &a - &b)?, &c, &diff, "sub.ref")?;
+    let mut x = a.clone();
+    no_panic("sub_assign", || x -= b.clone())?;
+    check_res(&x, &c, &diff, "sub_assign")?;
+    let mut x = a.clone();
+    no_panic("sub_assign.ref", || x -= &b)?;
+    check_res(&x, &c, &diff, "sub_assign.ref")?;
+    Ok(())
+}
+
+// ---------------------------------------------------------------------------------------
+// dense only: scaling, relabel_in_place, iterators, concat
+// ---------------------------------------------------------------------------------------
+
+fn dense_extra<F: PrimeField>(t: &mut Tape<'_>, o: &mut Obs, nmax: usize) -> R {
+    let c = gen_ops::<F>(t, o, nmax, "dense(scale)");
+    let a = if c.za { Dense::<F>::zero() } else { Dense::build(c.n, &c.ta, t, o) };
+    let (wa, wb, wk, wc) = gen_window(t, c.n);
+    o.class(wc);
+    o.evals(8);
+    let scaled: Vec<F> = c.ta.iter().map(|x| *x * c.f).collect();
+    check_res(&no_panic("mul", || a.clone() * c.f)?, &c, &scaled, "mul")?;
+    check_res(&no_panic("mul.ref", || &a * &c.f)?, &c, &scaled, "mul.ref")?;
+    let mut x = a.clone();
+    no_panic("mul_assign", || x *= c.f)?;
+    check_res(&x, &c, &scaled, "mul_assign")?;
+    let mut x = a.clone();
+    no_panic("mul_assign.ref", || x *= &c.f)?;
+    check_res(&x, &c, &scaled, "mul_assign.ref")?;
+    if !c.za {
+        // iterators
+        let it: Vec<F> = a.iter().cloned().collect();
+        ensure!(it == c.ta, "iter", "iter() differs from the table");
+        let it: Vec<F> = (&a).into_iter().cloned().collect();
+        ensure!(it == c.ta, "into_iter", "into_iter() differs from the table");
+        // relabel_in_place
+        let mut x = a.clone();
+        no_panic("relabel_in_place", || x.relabel_in_place(wa, wb, wk))?;
+        let want: Vec<F> = (0..c.ta.len()).map(|i| c.ta[swap_index(i, wa, wb, wk)]).collect();
+        ensure_eq!(x.num_vars, c.n, "relabel_in_place.num_vars");
+        ensure!(x.evaluations == want, "relabel_in_place", "relabel_in_place({},{},{}) on {} variables: got {} expected {}", wa, wb, wk, c.n, fmt_vec(&x.evaluations, 8), fmt_vec(&want, 8));
+        // iter_mut writes through
+        let mut y = a.clone();
+        for v in y.iter_mut() {
+            *v += F::one();
+        }
+        let want: Vec<F> = c.ta.iter().map(|v| *v + F::one()).collect();
+        ensure!(y.to_evaluations() == want, "iter_mut", "iter_mut() does not write through");
+    }
+    Ok(())
+}
+
+fn concat_rel<F: PrimeField>(t: &mut Tape<'_>, o: &mut Obs, nmax: usize) -> R {
+    let cnt = t.weighted(&[1, 2, 4, 3, 2, 2]);
+    let mut polys: Vec<Dense<F>> = Vec::new();
+    let mut want: Vec<F> = Vec::new();
+    let mut sizes = Vec::new();
+    let same = t.chance(1, 3);
+    let n0 = gen_n(t, nmax);
+    for _ in 0..cnt {
+        let n = if same { n0 } else { gen_n(t, nmax) };
+        let (tab, _) = gen_table::<F>(t, n);
+        want.extend_from_slice(&tab);
+        polys.push(Dense::from_evaluations_vec(n, tab));
+        sizes.push(n);
+    }
+    // documented: "If the combined table size is not a power of two, pad the table with zeros" (a table has >= 1 entry)
+    let mut n = 0;
+    while (1usize << n) < want.len() {
+        n += 1;
+    }
+    let total = want.len();
+    want.resize(1 << n, F::zero());
+    let (pt, pc) = gen_point::<F>(t, n);
+    o.show(|| format!("concat of {} tables with num_vars {:?} -> n={} table {} point {}", cnt, sizes, n, fmt_vec(&want, 6), fmt_vec(&pt, 4)));
+    o.class(pc);
+    o.class_if(cnt == 0, "concat-of-nothing");
+    o.class_if(cnt == 1, "concat-of-one");
+    o.class_if(total != (1 << n), "concat-padded");
+    o.class_if(sizes.windows(2).any(|w| w[0] != w[1]), "concat-different-sizes");
+    o.nt(cnt >= 2 && n >= 2 && nnz(&want) >= 2 && !is_boolean(&pt));
+    o.evals(3);
+    let r = no_panic("concat", || Dense::concat(&polys))?;
+    ensure_eq!(r.num_vars, n, "concat.num_vars");
+    ensure!(r.evaluations == want, "concat", "concat: got {} expected {}", fmt_vec(&r.evaluations, 8), fmt_vec(&want, 8));
+    let refs: Vec<&Dense<F>> = polys.iter().collect();
+    let r2 = no_panic("concat", || Dense::concat(refs.as_slice()))?;
+    ensure!(r2 == r, "concat.refs", "concat over a slice of references differs");
+    let got = r.evaluate(&pt);
+    let w = mle_eval(&want, &pt);
+    ensure!(got == w, "concat.evaluate", "concat result evaluates to {} expected {}", got, w);
+    // the documented identity for two tables of the same size
+    if cnt == 2 && sizes[0] == sizes[1] {
+        let k = sizes[0];
+        let e1 = mle_eval(&want[..1 << k], &pt[..k]);
+        let e2 = mle_eval(&want[1 << k..], &pt[..k]);
+        ensure!(got == (F::one() - pt[k]) * e1 + pt[k] * e2, "concat.identity", "f3 != (1-x_k) f1 + x_k f2");
+    }
+    Ok(())
+}
+
+// ---------------------------------------------------------------------------------------
+// dense and sparse forms of the same table agree everywhere
+// ---------------------------------------------------------------------------------------
+
+fn agree_rel<F: PrimeField>(t: &mut Tape<'_>, o: &mut Obs, nmax: usize) -> R {
+    let n = gen_n(t, nmax);
+    let (tab, tc) = gen_table::<F>(t, n);
+    let (tab2, _) = gen_table::<F>(t, n);
+    let d = Dense::<F>::from_evaluations_slice(n, &tab);
+    let s = <Sparse<F> as Rep<F>>::build(n, &tab, t, o);
+    let d2 = Dense::<F>::from_evaluations_slice(n, &tab2);
+    let s2 = <Sparse<F> as Rep<F>>::build(n, &tab2, t, o);
+    let pts: Vec<(Vec<F>, &'static str)> = (0..2).map(|_| gen_point::<F>(t, n)).collect();
+    let (a, b, k, wc) = gen_window(t, n);
+    let dl = t.idx(n + 1);
+    let f = fe::<F>(t);
+    o.show(|| format!("dense vs sparse: n={} {} nnz={} T={} point {} window ({},{},{}) fix {} f={}", n, tc, nnz(&tab), fmt_vec(&tab, 6), fmt_vec(&pts[0].0, 4), a, b, k, dl, f));
+    o.class(tc);
+    o.class(wc);
+    for p in &pts {
+        o.class(p.1);
+    }
+    o.nt(n >= 2 && nnz(&tab) >= 2 && pts.iter().any(|p| !is_boolean(&p.0)));
+    o.evals(8);
+    let same = |x: &Dense<F>, y: &Sparse<F>, sig: &str| -> R {
+        let zero_ok = |nv: usize, all0: bool| nv == 0 && all0;
+        let (tx, ty) = (x.table(), y.table());
+        if x.num_vars == y.num_vars {
+            ensure!(tx == ty, sig, "{}: dense table {} sparse table {}", sig, fmt_vec(&tx, 8), fmt_vec(&ty, 8));
+        } else {
+            // one of them is the Zero representation
+            ensure!(
+                (zero_ok(x.num_vars, nnz(&tx) == 0) || zero_ok(y.num_vars, nnz(&ty) == 0)) && nnz(&tx) == 0 && nnz(&ty) == 0,
+                format!("{}.arity", sig),
+                "{}: dense has {} variables, sparse {}",
+                sig,
+                x.num_vars,
+                y.num_vars
+            );
+        }
+        Ok(())
+    };
+    same(&d, &s, "table")?;
+    ensure!(s.to_dense_multilinear_extension() == d, "to_dense", "to_dense_multilinear_extension differs from the dense form");
+    ensure!(s.to_evaluations() == d.to_evaluations(), "to_evaluations", "to_evaluations differs: sparse {} dense {}", fmt_vec(&s.to_evaluations(), 8), fmt_vec(&d.to_evaluations(), 8));
+    for (p, _) in &pts {
+        let (x, y) = (d.evaluate(p), s.evaluate(p));
+        ensure!(x == y, "evaluate", "at {}: dense {} sparse {}", fmt_vec(p, 6), x, y);
+    }
+    let p = &pts[0].0;
+    same(&d.fix_variables(&p[..dl]), &s.fix_variables(&p[..dl]), "fix_variables")?;
+    same(&d.relabel(a, b, k), &no_panic("relabel", || s.relabel(a, b, k))?, "relabel")?;
+    same(&(&d + &d2), &(&s + &s2), "add")?;
+    same(&(&d - &d2), &(&s - &s2), "sub")?;
+    same(&(-d.clone()), &(-s.clone()), "neg")?;
+    let (mut x, mut y) = (d.clone(), s.clone());
+    x += (f, &d2);
+    y += (f, &s2);
+    same(&x, &y, "add_assign.scaled")?;
+    Ok(())
+}
+
+// ---------------------------------------------------------------------------------------
+
+fn field_rels<F: PrimeField>(out: &mut Vec<Rel>, fname: &str, tier: Tier) {
+    let nmax = tier.pick(10usize, 14usize);
+    let q = |n: u32| tier.pick(n, n * 25);
+    let tl = 96 + 3 * nmax * (words::<F>() + 1) + 120;
+    macro_rules! rep_rels {
+        ($M:ty, $kind:expr) => {
+            out.push(Rel::new(format!("evaluate/{}.{}", $kind, fname), q(3000), tl, move |t, o| eval_rel::<F, $M>(t, o, nmax)));
+            out.push(Rel::new(format!("fix_variables/{}.{}", $kind, fname), q(3000), tl, move |t, o| fix_rel::<F, $M>(t, o, nmax)));
+            out.push(Rel::new(format!("relabel/{}.{}", $kind, fname), q(3000), tl, move |t, o| relabel_rel::<F, $M>(t, o, nmax)));
+            out.push(Rel::new(format!("ops/{}.{}", $kind, fname), q(3000), tl + 120, move |t, o| ops_rel::<F, $M>(t, o, nmax)));
+        };
+    }
+    rep_rels!(Dense<F>, "dense");
+    rep_rels!(Sparse<F>, "sparse");
+    out.push(Rel::new(format!("scale+in_place/dense.{}", fname), q(3000), tl + 120, move |t, o| dense_extra::<F>(t, o, nmax)));
+    let cmax = tier.pick(6usize, 9usize);
+    out.push(Rel::new(format!("concat/dense.{}", fname), q(3000), 5 * 110 + 100, move |t, o| concat_rel::<F>(t, o, cmax)));
+    out.push(Rel::new(format!("agree/dense-sparse.{}", fname), q(3000), tl + 240, move |t, o| agree_rel::<F>(t, o, nmax)));
+    let tmax = tier.pick(8usize, 24usize);
+    out.push(Rel::new(format!("mv.evaluate/{}", fname), q(4000), 400 + 24 * tmax, move |t, o| mv::eval_rel::<F>(t, o, tmax)));
+    out.push(Rel::new(format!("mv.ops/{}", fname), q(4000), 400 + 48 * tmax, move |t, o| mv::ops_rel::<F>(t, o, tmax)));
+}
+
+fn relations(tier: Tier) -> Vec<Rel> {
+    let mut out = Vec::new();
+    field_rels::<ark_test_curves::bls12_381::Fr>(&mut out, "bls12_381.Fr", tier);
+    field_rels::<vh_core::zoo::T97>(&mut out, "T97", tier);
+    out
+}
+
 fn main() {
-    eprintln!("C17: check not implemented");
-    std::process::exit(2);
+    vh_core::engine::main(PropSpec {
+        id: "C17",
+        rule: "Tables of 2^n field values (n = 0..10, thorough 14; zero, 1-6 non-zero entries, ~sqrt(2^n) entries, dense from the tape or expanded from a tape word) over BLS12-381 Fr and the toy field F_97 are built as dense and as sparse extensions (sparse: distinct indices in a tape-chosen order, optional explicit zero entries); points are Boolean, uniform or mixed edge values; every prefix length 0..=n is bound; relabel windows are k=0, a=b or disjoint windows including b+k=n, in both orders; operands of + - neg scale += -= +=(f,.) are tables of equal arity or the Zero representation; concat takes 0..5 tables of equal or different sizes. Oracle: the definition f(x) = sum_b T[b] prod_i (b_i x_i + (1-b_i)(1-x_i)) computed by one product per index (bit i <-> variable i), tables read through Index. Multivariate: term lists with duplicates, cancelling and zero coefficients, unordered/repeated variables, zero exponents, 0..6 variables; oracle = sum of c*prod x_v^e on the raw list and a BTreeMap normal form for term count and degree. A case is non-trivial when it has >= 2 variables, >= 2 non-zero table entries (multivariate: >= 2 non-zero merged terms) and, where a point is an input, a non-Boolean point (relabel: a non-empty swap); distinct = distinct decoded choice sequences.",
+        assumptions: &[
+            "prime-field arithmetic of ark-ff is correct (subject of C01/C02); it is used inside the oracle",
+            "overlapping relabel windows and operands of different non-zero arity are documented panics and are not generated",
+            "`concat` of no tables is read as the zero polynomial in 0 variables (a table has at least one entry)",
+        ],
+        relations,
+    })
 }
